@@ -12,7 +12,7 @@ ASSUMPTIONS = ["numpy fancy indexing / ufunc.at / resize semantics as written in
 
 
 def histories(rng, tier):
-    n = 150 if tier == 'quick' else 3000
+    n = 500 if tier == 'quick' else 3000
     out = []
     for _ in range(n):
         c = gen.rand_cfg(rng, max_npix=768 if tier == 'quick' else 3072)
